@@ -612,17 +612,24 @@ def agent_rule(index, rep, rule, pipe: Pipeline) -> None:
         try:
             py, px = (aff_of(x, lambda e: env.get(src(e))) for x in p.args)
             ok = py == -Aff.sym('ymin') and px == -Aff.sym('xmin')
+            read = True
         except NonAffine:
-            ok = False
-    elif p is not None:
-        # any other spelling (`-Position(area.ymin, area.xmin)`, a static helper of Agent):
-        # its denotation in the pose algebra
+            read = False
+    else:
+        read = False
+    if p is not None and not read:
+        # any other spelling (`-Position(area.ymin, area.xmin)`, a static helper of Agent, a
+        # method of Area applied to the origin): its denotation in the pose algebra
         try:
             gi_ = GeoInterp(Geometry(index))
             pv = gi_.eval(p, {'area': A('a')}, fn.module)
-            ok = pv == ('P', (-Aff.sym('aymin'), -Aff.sym('axmin')))
-        except (AnalysisError, Exception):      # noqa: BLE001
-            ok = False
+        except Exception as ex_:      # noqa: BLE001
+            raise AnalysisError(f'from_visibility: the agent\'s view position `{src(p)[:80]}` '
+                                f'is not readable in the pose algebra ({str(ex_)[:80]})')
+        if not (isinstance(pv, tuple) and pv and pv[0] == 'P'):
+            raise AnalysisError(f'from_visibility: the agent\'s view position `{src(p)[:80]}` '
+                                f'does not denote a position ({str(pv)[:60]})')
+        ok = pv == ('P', (-Aff.sym('aymin'), -Aff.sym('axmin')))
     rep.check(ok, rule, OBS, 'from_visibility', fn.node.lineno, src(p) if p is not None else '',
               "the agent's view position is not (-area.ymin, -area.xmin), the view cell of the "
               "agent's own world cell", 'agent position')
